@@ -88,7 +88,7 @@ def run(ctx: core.Ctx):
     if ctx.quick:
         states = scriptgen.tlc_programs(ctx, ["Script_n3.cfg", "Script_ops3.cfg"], "Script_sim.cfg", sim_num=8000, sim_depth=16)
     else:
-        states = scriptgen.tlc_programs(ctx, ["Script_n4.cfg", "Script_ops3.cfg"], "Script_sim.cfg", sim_num=60000, sim_depth=18)
+        states = scriptgen.tlc_programs(ctx, ["Script_n3.cfg", "Script_ops3.cfg", "Script_loops4t.cfg", "Script_n4.cfg"], "Script_sim.cfg", sim_num=30000, sim_depth=18)
     rng = random.Random(ctx.seed)
     acc = [s for s in states if not s["refused"]]
     ref = [s for s in states if s["refused"]]
@@ -96,6 +96,8 @@ def run(ctx: core.Ctx):
     rng.shuffle(ref)
     if ctx.quick:
         acc, ref = acc[:1500], ref[:300]
+    else:
+        acc, ref = acc[:20000], ref[:2000]
     cases = []
     meta = []
     for i, s in enumerate(acc + ref):
